@@ -24,6 +24,7 @@ NCPU = os.cpu_count() or 8
 COMMON_DEFS = ["-D" + GUARD, "-DCPP_UTILITY_HAS_SPINLOCK_HINT"]
 SPIN_DEFAULT = ["-DCPP_UTILITY_SPINLOCK_RETRY_NUM=10", "-DCPP_UTILITY_BACKOFF_TIME=10"]
 # the other extreme of the two documented spin options: no retries at all, minimal back-off
+DEFAULT_THREAD_NUM = 32  # CMake default: number of logical cores x 2 (16 cores here)
 SPIN_ALT = ["-DCPP_UTILITY_SPINLOCK_RETRY_NUM=0", "-DCPP_UTILITY_BACKOFF_TIME=1"]
 
 FLAVORS = {
@@ -51,14 +52,18 @@ def build_spec(name):
     variant = parts[2] if len(parts) > 2 else ""
     flags, cxx = FLAVORS[flavor]
     flags = list(flags) + COMMON_DEFS
+    # every translation unit gets all four definitions the library's own CMake target publishes, whichever of them
+    # the unchanged sources of that component happen to use
     if prog in ("lock_stress", "lock_seq"):
         flags += SPIN_ALT if variant == "spinalt" else SPIN_DEFAULT
+        flags += ["-DDBGROUP_MAX_THREAD_NUM=%s" % DEFAULT_THREAD_NUM]
         return (["harness/lock/%s.cpp" % prog], LOCK_SRCS, flags, cxx)
     if prog == "thr_mon":
         n = variant[1:] if variant.startswith("n") else "8"
-        flags += ["-DDBGROUP_MAX_THREAD_NUM=%s" % n]
+        flags += ["-DDBGROUP_MAX_THREAD_NUM=%s" % n] + SPIN_DEFAULT
         return (["harness/thread/thr_mon.cpp"], THREAD_SRCS, flags, cxx)
     if prog == "zipf_mon":
+        flags += ["-DDBGROUP_MAX_THREAD_NUM=%s" % DEFAULT_THREAD_NUM] + SPIN_DEFAULT
         return (["harness/zipf/zipf_mon.cpp"], ZIPF_SRCS, flags, cxx)
     raise KeyError(name)
 
